@@ -136,6 +136,7 @@ public:
         int id = 0;
         std::thread::id tid;
         enum St { RUN, BLOCKED, SLEEP, INPUT, EXITED } st = RUN;
+        bool onMutex = false; // BLOCKED on a contended mutex (a wait that lasts nanoseconds on a real machine)
         const void* obj = nullptr;
         long long wake = 0;
         int prio = 0;
@@ -298,8 +299,9 @@ public:
         std::unique_lock<std::mutex> L(m);
         T* me = self;
         if (!me) return;
-        me->st = T::BLOCKED; me->obj = mtx;
+        me->st = T::BLOCKED; me->obj = mtx; me->onMutex = true;
         reschedule(L, me, false);
+        me->onMutex = false;
     }
     void mutexReleased(void* mtx) {
         std::unique_lock<std::mutex> L(m);
@@ -382,8 +384,10 @@ public:
             now += d * spec.nsPerNode;
             res.pollsThread0++;
             res.nodesBetweenTimeCheck = nbtc;
-        } else if (!th.empty() && th[0]->st != T::RUN) {
-            // the main search thread sleeps or is blocked while helpers keep searching: their nodes are the passage of time
+        } else if (!th.empty() && th[0]->st != T::RUN && !th[0]->onMutex) {
+            // the main search thread sleeps or waits for an event while helpers keep searching: their nodes are the passage
+            // of time.  (Not while it merely waits for a contended mutex: how long the holder stays descheduled is this
+            // scheduler's choice, not engine behaviour.)
             now += (long long)nbtc * spec.nsPerNode;
         }
     }
@@ -441,6 +445,7 @@ static long long clockHook() {
     if (s->spec.clockReadCostNs > 0 && s->clockCostActive && me && s->cur == me->id) {
         s->now += s->spec.clockReadCostNs;
         s->res.clockReads++;
+        if (getenv("COOP_CLK_DEBUG")) fprintf(stderr, "CLK step=%ld now=%lldus thread=%d\n", s->step, s->now / 1000, me->id);
         s->reschedule(L, me, true);
     }
     return s->now;
